@@ -1977,19 +1977,20 @@ fn gen_c08(ctx: &mut Ctx) {
     }
     // multi-sign buses: the configured sign is not the first one, others are mid-transfer
     for k in 0..(if thorough { 200 } else { 30 }) {
-        let own = 7u16;
+        // addresses on the bus: unrelated ones, and ones that agree modulo 256 with the configured sign before or after them
+        let (a0, own, a2) = [(5u16, 7u16, 9u16), (0x0107, 7, 0x0207), (7, 0x0107, 0x0307)][(k / 2) % 3];
         let t = k % 11;
         let (w, h) = SIGN_SIZES[t];
         let pages: Vec<String> = (0..1 + k % 3).map(|j| small_page(j as u8, w, h, &mut rng)).collect();
         let prior = [
-            "RO.5.RCF".to_string(),
+            format!("RO.{}.RCF", a0),
             format!("SD.0.{}", config_blocks()[2].0),
             "DC.1".to_string(),
-            "RO.5.RPX".to_string(),
+            format!("RO.{}.RPX", a0),
             format!("SD.0.{}", chunk(16, 1)),
-            format!("RO.7.{}", rng.pick(&["RCF", "SRS"])),
+            format!("RO.{}.{}", own, rng.pick(&["RCF", "SRS"])),
         ];
-        let line = format!("CL 3 5 M 7 {} 9 A {} | CFG.7.{} SND.7.{} SHW.7.50", if k % 2 == 0 { "M" } else { "A" }, prior.join(" "), t, pages.join("+"));
+        let line = format!("CL 3 {} M {} {} {} A {} | CFG.{}.{} SND.{}.{} SHW.{}.50", a0, own, if k % 2 == 0 { "M" } else { "A" }, a2, prior.join(" "), own, t, own, pages.join("+"), own);
         let res = ctx.case(line.clone(), true, "multi-sign");
         // the target (second of three signs) ends up holding exactly the pages sent, whatever the others are doing
         let toks: Vec<&str> = res.split(" # ").next().unwrap_or("").split(' ').filter(|s| !s.is_empty()).collect();
